@@ -938,7 +938,7 @@ def _splice(res, op, cfg, docs, step, V, guarded):
         if legit_keys is not None:
             for i, (g, b) in enumerate(zip(tail, p2)):
                 if isinstance(g, M.DuplicateBlockKeyBlock) and not isinstance(b, M.DuplicateBlockKeyBlock) \
-                        and (type(unwrap_dup(b)).__name__, g.key) not in legit_keys:
+                        and (type(unwrap_dup(b)).__name__, str(g.key).strip()) not in legit_keys:
                     V("C04", "suffix", f"{how}/flagged-duplicate-of-a-cut-off-block", step,
                       f"block {i} of the well-formed suffix ({type(unwrap_dup(b)).__name__} {g.key!r}) is flagged as a duplicate, but the only earlier "
                       f"text with that key is a block that was cut off before its closing brace (a failed block registers no key)")
@@ -972,8 +972,8 @@ def _splice(res, op, cfg, docs, step, V, guarded):
                 if isinstance(rawb, M.Entry):
                     bare = [f.value for f in rawb.fields if isinstance(f.value, str) and f.value
                             and not (f.value[0] in '{"' and f.value[-1] in '}"') and not f.value.isdigit()]
-                    if any(v not in d1_strings for v in bare):
-                        continue
+                    if any(v not in d1_strings for v in bare) or any("#" in str(f.value) for f in rawb.fields):
+                        continue        # (a '#' may be a concatenation whose pieces an implementation resolves against later @strings)
                 if type(x) is type(y) and isinstance(x, (M.Entry, M.String, M.Preamble, M.ExplicitComment, M.ImplicitComment)) \
                         and not isinstance(unwrap_dup(y), M.ParsingFailedBlock):
                     from ..fingerprint import fingerprint as _fp
